@@ -339,6 +339,32 @@ def arg_objs(w, items):
     return [w.objs[x] if isinstance(x, str) else x for x in items]
 
 
+def wrap_items(m, a):
+    """Model: what a collection-valued argument produces - every element of the
+    other owning collection, or, for a lazily evaluated filtering generator over
+    it, the elements named in "only" (in the other collection's order)."""
+    ks = m.kids(a["wrapper"][0], a["wrapper"][1]) if "wrapper" in a else m.nodes[a["from_ir"]].a["modules"]
+    only = a.get("only")
+    return [k for k in ks if only is None or k in only]
+
+
+def wrap_obj(w, a, coll):
+    """Implementation: the other owning collection itself, or a lazily evaluated
+    view of it (iter(coll), a generator over it, a filtering generator) - the
+    idiom `dst.update(x for x in src if cond)`, where every insertion removes the
+    element from the collection the generator is still walking."""
+    lazy = a.get("lazy")
+    if lazy is None:
+        return coll
+    if lazy == "iter":
+        return iter(coll)
+    only = a.get("only")
+    if only is None:
+        return (x for x in coll)
+    keep = {id(w.objs[l]) for l in only if l in w.objs}
+    return (x for x in coll if id(x) in keep)
+
+
 MUTATING_SET = ("add", "discard", "remove", "pop", "clear", "update", "ior", "isub", "iand", "ixor")
 PURE_SET = ("or", "and", "sub", "xor", "ror", "rand", "rsub", "rxor", "eq", "ne", "le", "lt", "ge", "gt", "isdisjoint", "len", "contains", "iter")
 
@@ -423,7 +449,7 @@ class SetOp(Op):
             incoming = []
             for a in op.get("args", []):
                 if isinstance(a, dict) and "wrapper" in a:
-                    items = w.m.kids(a["wrapper"][0], a["wrapper"][1])
+                    items = wrap_items(w.m, a)
                 else:
                     items = a if isinstance(a, list) else (a.get("items", []) if isinstance(a, dict) else [a])
                 for x in items:
@@ -465,7 +491,7 @@ class SetOp(Op):
             its = []
             for a in args:
                 if isinstance(a, dict) and "wrapper" in a:
-                    its.append(getattr(w.objs[a["wrapper"][0]], a["wrapper"][1]))  # the other owning collection itself
+                    its.append(wrap_obj(w, a, getattr(w.objs[a["wrapper"][0]], a["wrapper"][1])))  # the other owning collection itself (or a lazy view of it)
                 elif isinstance(a, dict):
                     its.append(RaisingIter(arg_objs(w, a["items"]), a["raise_after"]))
                 else:
@@ -574,8 +600,10 @@ class SetOp(Op):
                 seq = []  # elements in the order a built-in set.update would insert them
                 for a in args:
                     if isinstance(a, dict) and "wrapper" in a:
-                        seq.extend(m.kids(a["wrapper"][0], a["wrapper"][1]))
+                        seq.extend(wrap_items(m, a))
                         w.counters["probe:bulk_move_from_other_collection"] += 1
+                        if a.get("lazy"):
+                            w.counters["probe:bulk_move_through_lazy_view"] += 1
                     elif isinstance(a, dict):
                         seq.extend(a["items"][: a["raise_after"]])
                         failed = SimFault
@@ -701,7 +729,7 @@ class ListOp(Op):
             incoming = [l for l in self._arg_labels(op) if l not in cur]
             for a_ in op.get("args", []):
                 if isinstance(a_, dict) and "from_ir" in a_:
-                    incoming += [l for l in m.nodes[a_["from_ir"]].a["modules"] if l not in cur]
+                    incoming += [l for l in wrap_items(m, a_) if l not in cur]
             inc = []
             for l in incoming:
                 if l not in inc:
@@ -744,7 +772,7 @@ class ListOp(Op):
 
         def objs(a):
             if isinstance(a, dict) and "from_ir" in a:
-                return w.objs[a["from_ir"]].modules  # the other IR's module list itself
+                return wrap_obj(w, a, w.objs[a["from_ir"]].modules)  # the other IR's module list itself (or a lazy view of it)
             if isinstance(a, dict):
                 os_ = [w.objs[x] for x in a["items"]]
                 if "raise_after" in a:
@@ -834,7 +862,7 @@ class ListOp(Op):
 
         def items(a):
             if isinstance(a, dict) and "from_ir" in a:
-                return list(m.nodes[a["from_ir"]].a["modules"])
+                return wrap_items(m, a)
             if isinstance(a, dict):
                 return list(a["items"])
             return a
@@ -852,6 +880,8 @@ class ListOp(Op):
                 a = args[0]
                 if isinstance(a, dict) and "from_ir" in a:
                     w.counters["probe:bulk_move_from_other_collection"] += 1
+                    if a.get("lazy"):
+                        w.counters["probe:bulk_move_through_lazy_view"] += 1
                 if isinstance(a, dict) and "raise_after" in a:
                     partial = L + a["items"][: a["raise_after"]]
                     raise SimFault()
